@@ -249,8 +249,19 @@ def run(case, ctx):
     f2["data"] = f["data"][1:] + b"\x7e"
     if f["arg1"] is not None:
         f2["arg1"] = f["arg1"] ^ 0x80000001
+    # ... and any other field, each alone or together (which ones: the
+    # bits of the packet's own sequence number)
+    edited = ["seq", "tag", "dest_x", "data", "arg1"]
+    others = [n for n in SDP_FIELDS if n not in edited] + ["reply_expected",
+                                                           "cmd_rc"]
+    for i, name in enumerate(others):
+        if f["seq"] >> i & 1 or f["seq"] % len(others) == i:
+            edited.append(name)
+            f2[name] = (not f[name]) if name == "reply_expected" else \
+                (f[name] ^ (1 + (f["seq"] >> 3))) & \
+                ((1 << WIDTHS.get(name, 16)) - 1)
     for victim in (pkt, P.SCPPacket.from_bytestring(want, n_args=k)):
-        for name in ("seq", "tag", "dest_x", "data", "arg1"):
+        for name in edited:
             setattr(victim, name, f2[name])
         args2 = [f2["arg1"], f2["arg2"], f2["arg3"]]
         body2 = (f2["cmd_rc"].to_bytes(2, "little") +
